@@ -71,6 +71,7 @@ def run(tier, seed):
         c.notes.append("translator failed: " + V.tail(log, 10))
     proved = c.prove(PROPS, deps=DEPS)
     proved = c.prove(TIE) and proved
+    proved = c.prove("props/C08b.v") and proved      # pipeline corollaries combining C09/C03/C12 theorems (coq/integ)
     exe_h, hlog = V.build_harness("c08")
     st_all = {}
     if exe_h is None:
